@@ -188,6 +188,50 @@ fn native_spec() {
                 Err(e) => println!("SPEC-REPLAY MISMATCH target=parse_subcommand case={argv:?}: rejected as {:?}", e.kind()),
             }
         }
+    } else if target == "build_once" {
+        // C11: building is idempotent; reuse through the by-reference entry point gives equal results
+        std::panic::set_hook(Box::new(|_| {}));
+        let r = std::panic::catch_unwind(|| {
+            let mk = || {
+                Command::new("p")
+                    .version("1.0")
+                    .arg(Arg::new("x").long("x").action(ArgAction::Set).global(true))
+                    .arg(Arg::new("f").short('f').action(ArgAction::Count))
+                    .group(crate::ArgGroup::new("g").arg("f"))
+                    .subcommand(Command::new("sub").arg(Arg::new("y").long("y").action(ArgAction::SetTrue)))
+            };
+            let mut out = Vec::new();
+            let mut fresh = mk();
+            let m_fresh = fresh.try_get_matches_from_mut(["p", "-ff", "--x", "1", "sub", "--y"]).map_err(|e| e.kind());
+            let mut reused = mk();
+            reused.build();
+            let h1 = reused.render_help().to_string();
+            let n_args1 = reused.get_arguments().count();
+            reused.build();
+            reused.build();
+            let h2 = reused.render_help().to_string();
+            if h1 != h2 || n_args1 != reused.get_arguments().count() {
+                out.push(format!("help or argument list differ after building again ({} vs {} arguments)", n_args1, reused.get_arguments().count()));
+            }
+            let _ = reused.try_get_matches_from_mut(["p", "--bogus"]);
+            let m_again = reused.try_get_matches_from_mut(["p", "-ff", "--x", "1", "sub", "--y"]).map_err(|e| e.kind());
+            if m_fresh != m_again {
+                out.push("matches of a reused, pre-built command differ from a fresh one".to_string());
+            }
+            out
+        });
+        let _ = std::panic::take_hook();
+        match r {
+            Ok(v) => {
+                for m in v {
+                    println!("SPEC-REPLAY MISMATCH target=build_once case=build x3 / parse after failed parse: {m}");
+                }
+            }
+            Err(e) => {
+                let msg = e.downcast_ref::<String>().cloned().or_else(|| e.downcast_ref::<&str>().map(|s| s.to_string())).unwrap_or_default();
+                println!("SPEC-REPLAY MISMATCH target=build_once case=build x3 / reuse: PANICKED: {}", msg.replace('\n', " ").chars().take(140).collect::<String>());
+            }
+        }
     } else if target == "match_arg_error" {
         // C10: the error kind names a rule the input really breaks
         for acws in [false, true] {
